@@ -61,19 +61,25 @@ Definition gated (hs : list handler) (g : gate) : list (string * string * gate) 
 Record facts := {
   f_sites : list gate_site;
   f_handlers : list handler;
-  f_check_permissions_accepts : string;
-  f_sender_has_permission_accepts : string;
-  f_validate_root_accepts : string
+  f_gate_functions : list string
 }.
 
-(** Model.v [permitted]: member of the stored contracts, or equal to the stored root *)
-Definition model_check_permissions : string :=
-  "set.New(k.Sudoers.Get(ctx).Contracts...).Has(contract.String())||contract.String()==k.Sudoers.Get(ctx).Root".
-(** Model.v [sender =? root s] on the strings (AddContracts / RemoveContracts) … *)
-Definition model_sender_has_permission : string := "sender==root".
-(** … and on the decoded addresses (ChangeRoot) *)
-Definition model_validate_root : string :=
-  "sdk.AccAddressFromBech32(pbSudoers.Root).Equals(sdk.AccAddressFromBech32(msg.Sender))".
+Fixpoint strs_eqb (a b : list string) : bool :=
+  match a, b with
+  | [], [] => true
+  | x :: a', y :: b' => String.eqb x y && strs_eqb a' b'
+  | _, _ => false
+  end.
+
+(** the gate functions of x/sudo/keeper, recognised by the normal form of their body (parameters
+    $0 $1, receiver $r), whatever their name, receiver or file:
+      root test on the strings (AddContracts / RemoveContracts)   — Model.v [sender =? root s]
+      root test on the decoded addresses (ChangeRoot)             — Model.v [sender =? root s]
+      CheckPermissions: listed contract or root                    — Model.v [permitted] *)
+Definition model_gate_functions : list string :=
+  ["GateRoot:$0==$1";
+   "GateRoot:sdk.AccAddressFromBech32($0.Root).Equals(sdk.AccAddressFromBech32($1.Sender))";
+   "GateSudoers:set.New($r.Sudoers.Get($1).Contracts...).Has($0.String())||$0.String()==$r.Sudoers.Get($1).Root"].
 
 (** what the model assumes about the code, as a check on the generated facts *)
 Definition facts_ok (f : facts) : bool :=
@@ -85,6 +91,4 @@ Definition facts_ok (f : facts) : bool :=
   keys_eqb (map site_key (f_sites f)) expected_sites &&
   forallb gs_gate_first (f_sites f) &&
   (* the gate functions compute what the model's [permitted] / root test computes *)
-  String.eqb (f_check_permissions_accepts f) model_check_permissions &&
-  String.eqb (f_sender_has_permission_accepts f) model_sender_has_permission &&
-  String.eqb (f_validate_root_accepts f) model_validate_root.
+  strs_eqb (f_gate_functions f) model_gate_functions.
